@@ -229,3 +229,109 @@ struct GFacts {
   }
   bool any_loop() const { for (char c : loop) if (c) return true; return false; }
 };
+
+// ---------------------------------------------------------------------------------
+// Derivation facts used only by the known-finding class predicates (known.hpp): which rule
+// instances (rule, i, j) occur in some derivation of the whole input, with which split
+// vectors, and from which parent slots they are referenced.
+struct DerivFacts {
+  struct Inst { int r, i, j; std::vector<std::vector<int>> cuts; };
+  std::map<std::tuple<int,int,int>, Inst> insts;                       // (rule, i, j)
+  std::map<std::tuple<int,int,int>, std::set<std::tuple<int,int,int,int>>> parents;  // (sym,i,j) -> {(rule,i',j',t)}
+  std::set<std::tuple<int,int,int>> reach;                             // (sym,i,j)
+  Ref &R;
+  explicit DerivFacts(Ref &R_) : R(R_) { if (R.sentence()) visit(R.g.NT(R.g.start()), 0, R.n); }
+  void visit(int sym, int i, int j) {
+    if (!reach.insert(std::make_tuple(sym, i, j)).second) return;
+    if (R.g.is_term(sym)) return;
+    int A = R.g.nt_index(sym);
+    for (size_t ri = 0; ri < R.g.rules.size(); ri++) {
+      const Rule &r = R.g.rules[ri];
+      if (r.lhs != A) continue;
+      std::vector<int> cut(r.rhs.size() + 1); cut[0] = i;
+      rec(ri, r, 0, cut, j);
+    }
+  }
+  void rec(size_t ri, const Rule &r, size_t t, std::vector<int> &cut, int j) {
+    if (t == r.rhs.size()) {
+      if (cut[t] != j) return;
+      Inst &in = insts[std::make_tuple((int) ri, cut[0], j)];
+      in.r = (int) ri; in.i = cut[0]; in.j = j; in.cuts.push_back(cut);
+      std::vector<int> c = cut;   // cut is reused by the caller
+      for (size_t k = 0; k < r.rhs.size(); k++) {
+        parents[std::make_tuple(r.rhs[k], c[k], c[k + 1])].insert(std::make_tuple((int) ri, c[0], j, (int) k));
+        visit(r.rhs[k], c[k], c[k + 1]);
+      }
+      return;
+    }
+    for (int q = cut[t]; q <= j; q++) {
+      if (!R.derives(r.rhs[t], cut[t], q)) continue;
+      if (!R.tail_ok(r, t + 1, q, j)) continue;
+      cut[t + 1] = q;
+      rec(ri, r, t + 1, cut, j);
+    }
+  }
+  static bool translated(const Rule &r, int t) { for (int x : r.transl) if (x == t) return true; return false; }
+  // F1: a rule instance with two split vectors that differ at the start of an untranslated
+  // nonterminal while some symbol to its left is translated
+  bool untranslated_multi_origin() const {
+    for (auto &kv : insts) {
+      const Inst &in = kv.second;
+      const Rule &r = R.g.rules[in.r];
+      if (in.cuts.size() < 2) continue;
+      for (size_t t = 1; t < r.rhs.size(); t++) {
+        if (R.g.is_term(r.rhs[t]) || translated(r, (int) t)) continue;
+        bool left_translated = false;
+        for (size_t k = 0; k < t; k++) if (translated(r, (int) k)) left_translated = true;
+        if (!left_translated) continue;
+        std::set<int> starts; for (auto &c : in.cuts) starts.insert(c[t]);
+        if (starts.size() >= 2) return true;
+      }
+    }
+    return false;
+  }
+  // contexts of (sym,i,j): the abstract-node child slots (parent rule instance, split vector,
+  // position) that receive its translation, looking through rules without abstract node
+  // that pass the translation of this symbol on; "root" is the context of the start symbol.
+  std::map<std::tuple<int,int,int>, std::set<std::string>> ctxmemo;
+  std::set<std::tuple<int,int,int>> ctxbusy;
+  const std::set<std::string> &contexts(int sym, int i, int j) {
+    auto key = std::make_tuple(sym, i, j);
+    auto it = ctxmemo.find(key);
+    if (it != ctxmemo.end()) return it->second;
+    static const std::set<std::string> none;
+    if (!ctxbusy.insert(key).second) return none;
+    std::set<std::string> out;
+    if (sym == R.g.NT(R.g.start()) && i == 0 && j == R.n) out.insert("root");
+    auto pit = parents.find(key);
+    if (pit != parents.end())
+      for (auto &p : pit->second) {
+        int pr = std::get<0>(p), pi = std::get<1>(p), pj = std::get<2>(p), t = std::get<3>(p);
+        const Rule &r = R.g.rules[pr];
+        if (!translated(r, t)) continue;
+        if (r.anode) {
+          const Inst &in = insts[std::make_tuple(pr, pi, pj)];
+          for (auto &c : in.cuts) if (c[t] == i && c[t + 1] == j) {
+            std::string s = std::to_string(pr) + ":" + std::to_string(t) + ":";
+            for (int x : c) s += std::to_string(x) + ",";
+            out.insert(s);
+          }
+        } else {
+          for (auto &s : contexts(R.g.NT(r.lhs), pi, pj)) out.insert(s);
+        }
+      }
+    ctxbusy.erase(key);
+    return ctxmemo[key] = out;
+  }
+  // F2: an abstract-node rule instance with >= 2 split vectors whose translation is wanted in
+  // >= 2 different abstract-node child slots
+  bool shared_anode_multi_split() {
+    for (auto &kv : insts) {
+      const Inst &in = kv.second;
+      const Rule &r = R.g.rules[in.r];
+      if (!r.anode || in.cuts.size() < 2) continue;
+      if (contexts(R.g.NT(r.lhs), in.i, in.j).size() >= 2) return true;
+    }
+    return false;
+  }
+};
